@@ -132,7 +132,8 @@ const P_SIZEMASK_SUBSET: usize = 86;
 const P_SELECT_FROM_MUTATED: usize = 87;
 const P_COMPOSE_FROM_MUTATED: usize = 88;
 const P_LEN_XL: usize = 89;
-const NPROBES: usize = 90;
+const P_ALPHA_DECK: usize = 90;
+const NPROBES: usize = 91;
 
 fn probe_names() -> Vec<String> {
     let mut v = vec![String::new(); NPROBES];
@@ -182,6 +183,7 @@ fn probe_names() -> Vec<String> {
     v[P_LEN_M] = "swarm_history_len_4_12".into();
     v[P_LEN_L] = "swarm_history_len_13_48".into();
     v[P_LEN_XL] = "swarm_history_len_200_600_on_1_or_2_registers".into();
+    v[P_ALPHA_DECK] = "swarm_alphabet_distinct_cards_from_a_shuffled_deck_some_flagged".into();
     v[P_SIZEMASK_ALL] = "swarm_all_sizes_enabled".into();
     v[P_SIZEMASK_SUBSET] = "swarm_subset_of_sizes_enabled".into();
     v[P_SELECT_FROM_MUTATED] = "select_from_register_with_setter_writes".into();
@@ -198,7 +200,7 @@ fn cell(kind: usize, n: usize, slot: usize, mask: u8) -> usize {
 
 // ---- real-crate access ------------------------------------------------------
 
-fn build(n: usize, via: u8, w: &[u32; 7]) -> (Reg, u8) {
+pub fn build(n: usize, via: u8, w: &[u32; 7]) -> (Reg, u8) {
     match n {
         2 => match via {
             VIA_REF => (Reg::Two(Two::from(&[w[0], w[1]])), VIA_REF),
@@ -306,7 +308,7 @@ fn reg_accessors(reg: &Reg) -> ([u32; 8], usize) {
     (b, n)
 }
 
-fn reg_set(reg: &mut Reg, k: usize, w: u32) {
+pub fn reg_set(reg: &mut Reg, k: usize, w: u32) {
     match reg {
         Reg::Two(h) => match k {
             0 => h.set_first(w),
@@ -381,7 +383,7 @@ fn provenance(writes: &[WriteRec], word: u32) -> String {
 }
 
 /// I1..I4 for one register. Returns (invariant id, detail, an observed word for provenance).
-fn check_reg(reg: &Reg, m: &M) -> Option<(&'static str, String, u32)> {
+fn check_reg(reg: &Reg, m: &M, odd_step: bool) -> Option<(&'static str, String, u32)> {
     let n = m.n as usize;
     let want = m.slice();
     let (a, an) = reg_to_arr(reg);
@@ -411,9 +413,28 @@ fn check_reg(reg: &Reg, m: &M) -> Option<(&'static str, String, u32)> {
     }
     // I5: the slot-index selection read path, on the identity and the reversed tuple
     // (between them every slot), for every live six- or seven-slot register
+    // The two selections are made in alternating order from step to step, so that the same
+    // tuple is applied to consecutive states back to back (a last-result shortcut keyed on too
+    // little would confuse them).
     let sel = match reg {
-        Reg::Six(x) => Some((x.five_from_permutation([0, 1, 2, 3, 4]), x.five_from_permutation([5, 4, 3, 2, 1]), [5usize, 4, 3, 2, 1])),
-        Reg::Seven(x) => Some((x.five_from_permutation([0, 1, 2, 3, 4]), x.five_from_permutation([6, 5, 4, 3, 2]), [6usize, 5, 4, 3, 2])),
+        Reg::Six(x) => {
+            let (a, b) = if odd_step {
+                let b = x.five_from_permutation([5, 4, 3, 2, 1]);
+                (x.five_from_permutation([0, 1, 2, 3, 4]), b)
+            } else {
+                (x.five_from_permutation([0, 1, 2, 3, 4]), x.five_from_permutation([5, 4, 3, 2, 1]))
+            };
+            Some((a, b, [5usize, 4, 3, 2, 1]))
+        }
+        Reg::Seven(x) => {
+            let (a, b) = if odd_step {
+                let b = x.five_from_permutation([6, 5, 4, 3, 2]);
+                (x.five_from_permutation([0, 1, 2, 3, 4]), b)
+            } else {
+                (x.five_from_permutation([0, 1, 2, 3, 4]), x.five_from_permutation([6, 5, 4, 3, 2]))
+            };
+            Some((a, b, [6usize, 5, 4, 3, 2]))
+        }
         _ => None,
     };
     if let Some((ident, rev, ridx)) = sel {
@@ -805,7 +826,7 @@ impl C19 {
                     let n = model[r].n as usize;
                     at(step, kind, SIZE_NAMES[n]);
                     obs.inv_checks += 1;
-                    if let Some((inv, msg, word)) = check_reg(reg, &model[r]) {
+                    if let Some((inv, msg, word)) = check_reg(reg, &model[r], step % 2 == 1) {
                         let frame = touched != Some(r);
                         let inv_id = if frame { "frame" } else { inv };
                         let mut d = format!("after step {} ({}), register {} ({}): {}", step, KINDS[kind], r, SIZE_NAMES[n], msg);
@@ -849,6 +870,20 @@ impl C19 {
     }
 }
 
+/// Words that tend to be special to somebody: single bits, all-ones-below-a-bit, one-bit-clear,
+/// the crate's own masks and flag combinations, values that make tempting in-band markers.
+pub fn boundary_words() -> Vec<u32> {
+    let mut b: Vec<u32> = Vec::new();
+    for k in 0..32 {
+        b.push(1u32 << k);
+        b.push((1u32 << k).wrapping_sub(1));
+        b.push(!(1u32 << k));
+    }
+    b.extend_from_slice(&[0x1FFF_FFFF, 0x2000_0000, 0x3FFF_FFFF, 0xE000_0000, 0x0000_F000, 0x1FFF_0000, 0x0000_003F, 0x0000_0F00]);
+    b.extend_from_slice(&[0x6000_0000, 0xA000_0000, 0xC000_0000, 0xFFFF_FFFE, 0x8000_0001, 0x7FFF_FFFE, 0xFFFF_0000, 0x0000_FFFF, 0xDEAD_BEEF, 0xAAAA_AAAA, 0x5555_5555]);
+    b
+}
+
 // ---- generation ----------------------------------------------------------------
 
 const ALPHA_TAGS: usize = 0;
@@ -857,6 +892,7 @@ const ALPHA_CARDS: usize = 1;
 const ALPHA_ARB: usize = 2;
 const ALPHA_SORTED: usize = 3;
 const ALPHA_MIXED: usize = 4;
+const ALPHA_DECK: usize = 5;
 
 // weights: New, NewDefault, Set, Compose6, Compose7, Select, CopyOut, SortInPlace
 const MIXES: [[u32; 8]; 5] = [
@@ -875,6 +911,9 @@ struct Gen<'a> {
     shadow: [M; NREGS],
     pool: Vec<u32>,
     step: usize,
+    deck: Vec<u8>,
+    deck_pos: usize,
+    boundary: Vec<u32>,
 }
 
 impl<'a> Gen<'a> {
@@ -886,6 +925,24 @@ impl<'a> Gen<'a> {
         let alpha = if self.alpha == ALPHA_MIXED { self.rng.usize_below(3) } else { self.alpha };
         match alpha {
             ALPHA_TAGS => 0x4000_0000 | ((self.step as u32 & 0xFFFF) << 8) | slot as u32,
+            ALPHA_DECK => {
+                // cards dealt without repetition from a shuffled deck (reshuffled when exhausted),
+                // now and then carrying a pair/trips/quads flag, now and then a blank
+                if self.deck_pos >= self.deck.len() {
+                    let mut d = std::mem::take(&mut self.deck);
+                    self.rng.shuffle(&mut d);
+                    self.deck = d;
+                    self.deck_pos = 0;
+                }
+                let c = card_word(self.deck[self.deck_pos] as usize);
+                self.deck_pos += 1;
+                match self.rng.below(16) {
+                    0 => 0,
+                    1 => c | 0x2000_0000,
+                    2 => c | [0x4000_0000u32, 0x8000_0000, 0xE000_0000, 0x6000_0000][self.rng.usize_below(4)],
+                    _ => c,
+                }
+            }
             ALPHA_CARDS | ALPHA_SORTED => {
                 let m = self.shadow[reg];
                 let n = m.n as usize;
@@ -898,7 +955,9 @@ impl<'a> Gen<'a> {
                     _ => *self.rng.pick(&self.pool),
                 }
             }
-            _ => match self.rng.below(12) {
+            _ => match self.rng.below(14) {
+                12 => *self.rng.pick(&self.boundary),
+                13 => [0x2000_0000u32, 0x4000_0000, 0x6000_0000, 0x8000_0000, 0xA000_0000, 0xC000_0000, 0xE000_0000][self.rng.usize_below(7)],
                 0 => u32::MAX,
                 1 => 0,
                 2 => self.card() | [0x2000_0000u32, 0x4000_0000, 0x8000_0000, 0xE000_0000][self.rng.usize_below(4)],
@@ -1002,7 +1061,7 @@ impl World for C19 {
 
     fn generate(rng: &mut Rng, obs: &mut Obs) -> Vec<Op> {
         let nregs = 1 + rng.usize_below(NREGS);
-        let alpha = rng.usize_below(5);
+        let alpha = rng.usize_below(6);
         let mix = rng.usize_below(5);
         let all_sizes = rng.chance(1, 3);
         let mut sizes: Vec<usize> = Vec::new();
@@ -1030,7 +1089,7 @@ impl World for C19 {
             }
         };
         obs.hit(P_NREGS + nregs - 1);
-        obs.hit(P_ALPHA + alpha);
+        obs.hit(if alpha == ALPHA_DECK { P_ALPHA_DECK } else { P_ALPHA + alpha });
         obs.hit(P_MIX + mix);
         obs.hit(if all_sizes { P_SIZEMASK_ALL } else { P_SIZEMASK_SUBSET });
         obs.hit(if len <= 3 {
@@ -1045,7 +1104,9 @@ impl World for C19 {
         let npool = 1 + rng.usize_below(4);
         let mut pool: Vec<u32> = (0..npool).map(|_| card_word(rng.usize_below(52))).collect();
         pool.push(0);
-        let mut g = Gen { rng, alpha, sizes, nregs, shadow: [M::EMPTY; NREGS], pool, step: 0 };
+        let mut deck: Vec<u8> = (0..52).collect();
+        rng.shuffle(&mut deck);
+        let mut g = Gen { rng, alpha, sizes, nregs, shadow: [M::EMPTY; NREGS], pool, step: 0, deck, deck_pos: 0, boundary: boundary_words() };
         let mut ops: Vec<Op> = Vec::with_capacity(len);
         while ops.len() < len {
             g.step = ops.len();
@@ -1322,13 +1383,7 @@ impl World for C19 {
             }
         }
         // boundary words through every setter and every constructor kind
-        let mut boundary: Vec<u32> = Vec::new();
-        for b in 0..32 {
-            boundary.push(1u32 << b);
-            boundary.push((1u32 << b).wrapping_sub(1));
-            boundary.push(!(1u32 << b));
-        }
-        boundary.extend_from_slice(&[0x1FFF_FFFF, 0x2000_0000, 0x3FFF_FFFF, 0xE000_0000, 0x0000_F000, 0x1FFF_0000, 0x0000_003F, 0x0000_0F00]);
+        let boundary = boundary_words();
         for n in 2..=7u8 {
             let vias: &[u8] = match n {
                 2 => &[VIA_ARR, VIA_REF, VIA_NEWFN],
@@ -1446,6 +1501,67 @@ impl World for C19 {
                     ops.push(Op::Select { dst: 1, src: 0, idx });
                 }
                 out.push((format!("all selection tuples from {} holding content {}", SIZE_NAMES[n as usize], ci), ops));
+            }
+        }
+        // boundary / marker-like words at every position of the composite constructors
+        for (bi, bw) in boundary_words().into_iter().chain([0u32, u32::MAX]).enumerate() {
+            let mut ops = Vec::new();
+            for p in 0..7usize {
+                let mut w = tagged(bi as u32 & 0xFF);
+                w[p] = bw;
+                ops.push(Op::New { dst: 1, n: 2, via: VIA_ARR, words: [w[0], w[1], 0, 0, 0, 0, 0] });
+                ops.push(Op::New { dst: 2, n: 5, via: VIA_ARR, words: [w[2], w[3], w[4], w[5], w[6], 0, 0] });
+                ops.push(Op::Compose7 { dst: 0, two: 1, five: 2 });
+                if p < 6 {
+                    ops.push(Op::New { dst: 3, n: 2, via: VIA_ARR, words: [w[1], w[2], 0, 0, 0, 0, 0] });
+                    ops.push(Op::New { dst: 4, n: 3, via: VIA_ARR, words: [w[3], w[4], w[5], 0, 0, 0, 0] });
+                    ops.push(Op::Compose6 { dst: 5, one: w[0], two: 3, three: 4 });
+                }
+            }
+            out.push((format!("composites with word {:#010x} at each position", bw), ops));
+        }
+        // seven distinct real cards through the composites and the constructors, one (or all) of them
+        // carrying a pair / trips / quads flag — the shape a "valid hand" shortcut would look for
+        for (fi, flag) in [0x2000_0000u32, 0x4000_0000, 0x8000_0000, 0xE000_0000].into_iter().enumerate() {
+            let mut ops = Vec::new();
+            for p in 0..8usize {
+                for start in [0usize, 11, 23] {
+                    let mut w = [0u32; 7];
+                    for k in 0..7 {
+                        w[k] = card_word((start + k * 5) % 52) | if p == 7 || p == k { flag } else { 0 };
+                    }
+                    ops.push(Op::New { dst: 1, n: 2, via: VIA_NEWFN, words: [w[0], w[1], 0, 0, 0, 0, 0] });
+                    ops.push(Op::New { dst: 2, n: 5, via: VIA_NEWFN, words: [w[2], w[3], w[4], w[5], w[6], 0, 0] });
+                    ops.push(Op::Compose7 { dst: 0, two: 1, five: 2 });
+                    ops.push(Op::New { dst: 4, n: 3, via: VIA_TUPLE, words: [w[3], w[4], w[5], 0, 0, 0, 0] });
+                    ops.push(Op::Compose6 { dst: 5, one: w[0], two: 1, three: 4 });
+                    ops.push(Op::New { dst: 6, n: 7, via: VIA_ARR, words: w });
+                    ops.push(Op::Select { dst: 7, src: 6, idx: [6, 5, 4, 1, 0] });
+                    ops.push(Op::New { dst: 6, n: 6, via: VIA_ARR, words: w });
+                    ops.push(Op::New { dst: 6, n: 4, via: VIA_ARR, words: w });
+                }
+            }
+            out.push((format!("distinct cards with flag {} through composites and constructors", fi), ops));
+        }
+        // consecutive states of one Six / Seven that differ in one bit of each of two slots: a
+        // cache, memo or checksum keyed on a weak (linear) digest of the words confuses such pairs.
+        // The standing selection invariant I5 reads both states back to back.
+        for n in [6u8, 7u8] {
+            let base = tagged(3);
+            for i in 0..n as usize {
+                for j in (i + 1)..n as usize {
+                    let mut ops = vec![Op::New { dst: 0, n, via: VIA_ARR, words: base }];
+                    for b1 in 0..32 {
+                        for b2 in 0..32 {
+                            let mut w = base;
+                            w[i] ^= 1u32 << b1;
+                            w[j] ^= 1u32 << b2;
+                            ops.push(Op::New { dst: 0, n, via: VIA_ARR, words: w });
+                            ops.push(Op::New { dst: 0, n, via: VIA_ARR, words: base });
+                        }
+                    }
+                    out.push((format!("two-bit deltas between consecutive states of a {} (slots {} and {})", SIZE_NAMES[n as usize], i, j), ops));
+                }
             }
         }
         // copies are independent
